@@ -116,6 +116,13 @@ DimPerms(t) == {[k \in DOMAIN t |-> t[p[k]]] : p \in Perms(DOMAIN t)}
 Preserve(L) ==
   UNION {{[fam |-> "preserve", ins |-> <<i>>, outs |-> <<o>>, L |-> L] : o \in {o2 \in DimPerms(i) : BrNamesOf(o2) = BrNamesOf(i)}} : i \in BrIns}
 
+(* the same name on two bracketed axes ([x] [x] y, [x] y [x], ...): they are still two axes of the sub-tensor, paired
+   with the output's bracketed axes in order of occurrence *)
+PreserveRep(L) ==
+  UNION {UNION {{[fam |-> "preserve", ins |-> <<i>>, outs |-> <<o>>, L |-> L] : o \in DimPerms(i)}
+                  : i \in {<<AxB(p[1]), AxB(p[1]), AxU(p[2])>>, <<AxB(p[1]), AxU(p[2]), AxB(p[1])>>, <<AxU(p[2]), AxB(p[1]), AxB(p[1])>>}}
+         : p \in Pairs}
+
 (* argfind: output = loop axes (any order) followed / preceded by [n] with n = number of bracketed input axes *)
 Argfind(L) ==
   UNION {UNION {{[fam |-> "argfind", ins |-> <<i>>, outs |-> <<[k \in DOMAIN p |-> AxU(p[k])] \o <<Nb(Len(BrNamesOf(i)))>>>>, L |-> L],
@@ -170,7 +177,7 @@ CaseSet(L) ==
     [] Family = "idcat"       -> {c \in IdCat(L) \cup IdCat2(L) : IdValid(c)}
     [] Family = "elementwise" -> {c \in Elementwise(L) : ElValid(c)}
     [] Family = "reduce"      -> Reduce(L)
-    [] Family = "preserve"    -> Preserve(L)
+    [] Family = "preserve"    -> Preserve(L) \cup PreserveRep(L)
     [] Family = "argfind"     -> Argfind(L)
     [] Family = "dot"         -> {c \in Dot(L) : DotValid(c)} \cup Dot3(L)
     [] Family = "get_at"      -> GetAt(L)
